@@ -82,14 +82,28 @@ func vfC25Arith(r *rand.Rand) *vfExpr {
 		}
 		return vfConst(vfPick(r, consts))
 	}
-	e := operand()
-	for n := 2 + r.IntN(3); n > 0; n-- {
-		op := vfPick(r, []string{"div", "div", "div", "mul", "mul", "add", "sub", "mod"})
-		rhs := operand()
-		if r.IntN(6) == 0 {
-			rhs = vfOp("paren", vfOp(vfPick(r, []string{"add", "mul", "div"}), operand(), operand()))
+	// one flat chain of a single precedence class (the parser builds one n-ary node for it and the folder
+	// regroups it), sometimes nested in a second one
+	chain := func(cls int) *vfExpr {
+		var pool []string
+		switch cls {
+		case 0:
+			pool = []string{"div", "div", "div", "mul", "mul", "mod"}
+		case 1:
+			pool = []string{"add", "sub", "add", "sub", "sub"}
+		default:
+			pool = []string{"cat"}
 		}
-		e = vfOp(op, e, rhs)
+		e := &vfExpr{op: "chain", args: []*vfExpr{operand()}}
+		for n := 2 + r.IntN(3); n > 0; n-- {
+			e.ops = append(e.ops, vfPick(r, pool))
+			e.args = append(e.args, operand())
+		}
+		return e
+	}
+	e := chain(vfPick(r, []int{0, 0, 0, 1, 2}))
+	if r.IntN(4) == 0 {
+		e = &vfExpr{op: "chain", args: []*vfExpr{e, operand(), chain(0)}, ops: []string{vfPick(r, []string{"add", "sub"}), "add"}}
 	}
 	return e
 }
